@@ -20,6 +20,9 @@ type Clause struct {
 	Using []string
 	File  string
 	Line  int
+	// Assumed (ensures_assumed): callers may rely on the clause, the function's
+	// own verification does not prove it; reported as an unchecked assumption.
+	Assumed bool
 }
 
 type LoopSpec struct {
@@ -135,7 +138,7 @@ var stmtKeywords = map[string]bool{
 	"spec": true, "pred": true, "lemma": true, "axiom": true, "func": true, "interface": true, "functype": true,
 	"prop": true, "mode": true, "requires": true, "ensures": true, "panics": true, "modifies": true,
 	"decreases": true, "loop": true, "invariant": true, "closure": true, "trusted": true, "inline": true,
-	"assert": true, "assert_if_present": true, "assert_then": true, "defines": true, "lift": true, "requires_impl": true, "using": true, "opt": true, "nosafety": true, "induction": true, "opaque_spec": true, "opaque_pred": true,
+	"ensures_assumed": true, "assert": true, "assert_if_present": true, "assert_then": true, "defines": true, "lift": true, "requires_impl": true, "using": true, "opt": true, "nosafety": true, "induction": true, "opaque_spec": true, "opaque_pred": true,
 }
 
 type stmt struct {
@@ -372,8 +375,12 @@ func (cs *Contracts) loadContractFile(path, importPath string, external bool) er
 			}
 			curF.Defines = append(curF.Defines, c)
 			lastClause = c
-		case "requires", "ensures", "panics":
+		case "requires", "ensures", "panics", "ensures_assumed":
 			c, err := mkClause(s.kw, s)
+			if err == nil && s.kw == "ensures_assumed" {
+				c.Assumed = true
+				c.Kind = "ensures"
+			}
 			if err != nil {
 				return err
 			}
@@ -393,7 +400,7 @@ func (cs *Contracts) loadContractFile(path, importPath string, external bool) er
 			switch s.kw {
 			case "requires":
 				curF.Requires = append(curF.Requires, c)
-			case "ensures":
+			case "ensures", "ensures_assumed":
 				curF.Ensures = append(curF.Ensures, c)
 			case "panics":
 				curF.Panics = append(curF.Panics, c)
